@@ -4,6 +4,12 @@ import numpy as np
 import pymc as pm
 import pytensor.tensor as pt
 from astropy.utils.decorators import deprecated_renamed_argument
+from pytensor.graph.replace import vectorize_graph
+
+try:
+    from pytensor.graph.traversal import ancestors
+except ImportError:  # older pytensor
+    from pytensor.graph.basic import ancestors
 
 import thejoker.units as xu
 
@@ -365,7 +371,17 @@ class JokerPrior:
             logp = []
             for par in sub_pars.values():
                 try:
-                    _logp = pm.logp(par, raw_samples[par.name]).eval()
+                    # log-density of this parameter at each row's own values:
+                    # parameters it depends on (e.g. the K prior on P and e)
+                    # are set to the same row's draws instead of being re-drawn
+                    _val = pt.scalar(dtype=str(raw_samples[par.name].dtype))
+                    _graph = pm.logp(par, _val)
+                    _anc = set(ancestors([_graph]))
+                    _rep = {_val: pt.as_tensor_variable(raw_samples[par.name])}
+                    for _name, _other in sub_pars.items():
+                        if _other is not par and _other in _anc:
+                            _rep[_other] = pt.as_tensor_variable(raw_samples[_name])
+                    _logp = vectorize_graph(_graph, replace=_rep).eval()
                 except Exception:
                     logger.warning(
                         f"Cannot auto-compute log-prior value for parameter {par}"
